@@ -1,6 +1,6 @@
 (* non-vacuity for C16 and the recorded refutation F19 *)
 From GV Require Import Base.Prelude Base.PyStr Model.Bins Model.DB Model.Parser Model.Query Model.Import Model.Merge
-  Gen.GenLib Gen.GenCriteria.
+  Gen.GenLib Gen.GenCriteria Proofs.C16Proofs Proofs.C16Union.
 Open Scope Z_scope.
 Definition iv (id : str) (strand : str) (s e : Z) : minput :=
   mkIn id {| m_seqid := U "chr1"%bs; m_strand := strand; m_ftype := U "exon"%bs; m_start := s; m_end := e |} (U "src"%bs) [46%N].
@@ -18,3 +18,19 @@ Definition f19 := [iv (U "A"%bs) P 1 10; iv (U "B"%bs) M 2 3; iv (U "C"%bs) P 5 
 Example C16_interleaved_refuted :
   length (fst (merge default_criteria f19 [])) = 3%nat /\ children_bp true default_criteria f19 = 20 /\ union_size_by_class f19 = 14.
 Proof. vm_compute. repeat split. Qed.
+
+(* the hypotheses of C16_children_bp_union are met by overlapping, adjacent, nested and separate children:
+   [1-4] [3-6] [4-5] [7-7] [9-9] cover 1..7 and 9: 8 positions of the window [0, 20) *)
+Definition bp_kids := [iv (U "a"%bs) P 1 4; iv (U "b"%bs) P 3 6; iv (U "n"%bs) P 4 5; iv (U "c"%bs) P 7 7; iv (U "d"%bs) P 9 9].
+Example C16_children_bp_union_inhabited :
+  (forall f, In f bp_kids -> okf (U "chr1"%bs) P (U "exon"%bs) f) /\
+  sorted_from 1 bp_kids /\ (forall f, In f bp_kids -> 0 <= m_start (mi_v f) /\ m_end (mi_v f) < 20) /\
+  children_bp true default_criteria bp_kids = 8 /\ zcount (in_kids bp_kids) 0 20 = 8 /\
+  children_bp false default_criteria bp_kids = 12.
+Proof.
+  split; [|split; [|split]].
+  - intros f Hf. repeat (destruct Hf as [Hf|Hf]; [subst f; split; [repeat split|cbn; lia]|]). destruct Hf.
+  - cbn. lia.
+  - intros f Hf. repeat (destruct Hf as [Hf|Hf]; [subst f; cbn; lia|]). destruct Hf.
+  - vm_compute. repeat split.
+Qed.
